@@ -8,10 +8,15 @@ TIE = ("hand-written two-layer model (FcpptModel/Model/C07.lean: checked heap + 
        "correspondence: real raw_vector/buffer templates vs std::vector (inside the harness) vs the Lean model")
 RULE = ("one history = `reset`, a constructor, then up to 30 (quick) / 60 (thorough) operations over 3 vector and 2 buffer "
         "registers; after every operation: returned iterator offset, contents by iteration, size, capacity>=size, "
-        "'reallocated iff needed', number of live allocations (ledger allocator), agreement with std::vector. "
-        "Systematic batch: every constructor-produced size 0..4 x spare capacity 0..3 x every single operation with every "
-        "valid position / count / aliased index. An op is non-trivial if it is executed (not `invalid`); distinct = "
-        "distinct (op, result) pairs.")
+        "'reallocated iff needed' (reok), capacity never shrinks / reserve(n) gives >= n / shrink_to_fit gives == size (cpok), "
+        "a capacity that changes at least doubles (geo), buffer storage moved iff the write area did not fit (mv), number of live "
+        "allocations (ledger allocator), agreement with std::vector; `dump` of all registers at the end of every history. "
+        "Systematic batches: every constructor-produced size 0..3/4 x spare capacity x every single operation with every valid "
+        "position / count / aliased index / iterator kind / accessor / own sub-range; special first step (moved-from, swapped away, "
+        "emptied, shrunk, self-assigned, converted buffer) x every second operation and save-mutate-restore; every pair of short "
+        "vectors x capacity state for the six comparison operators; every buffer program of 2/3 steps; dynamic_array sizes 0..5. "
+        "An op is non-trivial if it is executed (not `invalid`); distinct = distinct (op, result) pairs. "
+        "Besides the diff: API inventory (every public member of the anchored classes must be listed with the op reaching it).")
 ASSUMPTIONS = [
     "element type int (trivial); an argument `T const&` is either a value living elsewhere or a reference to an element of the same vector",
     "std::allocator/operator new: allocate(n) returns a fresh block of n cells disjoint from all live blocks (also for n = 0)",
@@ -19,6 +24,8 @@ ASSUMPTIONS = [
     "growth policy is a parameter g with n <= g n cap (the driver uses the code's max(n, 2*cap); capacities are compared only as cap >= size and 'reallocated iff needed')",
     "move assignment: the standard leaves the source unspecified; the specification fixes it to the target's old contents (swap)",
     "std::istream::read(count) is good iff count characters were available",
+    "insert(pos, first, last) with [first,last) inside the vector itself is outside std::vector's contract; it is specified (and proved) "
+    "only where raw_vector's answer does not depend on the capacity (last <= pos); elsewhere model and code are compared without a specification",
 ]
 TRUSTED = ["harness/c07.cpp (ledger allocator, std::vector reference, poke of spare capacity) and the line protocol",
            "g++ 12 + ASan/UBSan/LeakSanitizer as witness for the memory layer of the real code"]
@@ -432,7 +439,7 @@ def state_prefixes(sizes, extras, ways):
 def systematic(sizes, extras, thorough):
     """every single operation with every valid position/count/alias from every small (size, spare capacity) state"""
     ops = []
-    for pre, n in state_prefixes(sizes, extras, (0, 1, 2) if thorough else (0,)):
+    for pre, n in state_prefixes(sizes, extras, (0, 1, 2)):
         for c in single_cases(n):
             ops += pre + [c, "obs 0", "push 0 v55", "obs 0", "end"]
     ops.append("reset")
@@ -463,7 +470,7 @@ def first_steps(n):
 def two_step(sizes, extras, thorough):
     """first step (special state) x every second operation; and save - mutate - restore through swap / move"""
     ops = []
-    for pre, n in state_prefixes(sizes, extras, (0, 2) if thorough else (0,)):
+    for pre, n in state_prefixes(sizes, extras, (0, 2)):
         for first, n1, other in first_steps(n):
             for c in single_cases(n1, 0, full=thorough):
                 ops += pre + first + [c, "obs 0", "push 0 v55", "obs 0", "obs 1", "end"]
@@ -604,9 +611,10 @@ def batches(rng, tier):
                 kind="history", exhaustive=True,
                 note="special first step (moved-from, swapped away, emptied, shrunk, self-assigned, converted buffer) x every "
                      "second operation; save-mutate-restore through swap/move")
-    yield Batch("cmp-all-pairs", cmp_states([-1, 0, 2] if thorough else [-1, 1], 3 if thorough else 2), kind="history", exhaustive=True,
+    yield Batch("cmp-all-pairs", cmp_states([-1, 0, 2] if thorough else [-1, 1], 3), kind="history", exhaustive=True,
                 note="== != < > <= >= on every pair of vectors over a small alphabet up to length %d, each operand with exact "
-                     "capacity / a stale element behind the end / spare capacity" % (3 if thorough else 2))
+                     "capacity / a stale element behind the end / spare capacity; prefixes / one differing position up to length 6; "
+                     "extreme values" % 3)
     yield Batch("buffer-systematic", buffer_systematic(3 if thorough else 2, thorough), kind="history", exhaustive=True,
                 note="every buffer program of %d steps from every initial write size 0..3 (ctor / read_from / read_from_opt), "
                      "observed through operator[], converted, the released buffer converted again" % (3 if thorough else 2))
@@ -773,14 +781,19 @@ def extra_checks(binp, rng, tier, ev):
 
 
 MANIFEST = {
-    "level_text": ("Machine-checked proof (Lean 4) over an executable two-layer model of raw_vector and buffer (bounds- and "
-                   "initialisation-checked heap with an allocation ledger; pointer triples; every member mirrored path by path, "
+    "level_text": ("Machine-checked proof (Lean 4) over an executable two-layer model of raw_vector, buffer and dynamic_array (bounds- and "
+                   "initialisation-checked heap with an allocation ledger; pointer triples; every public member mirrored path by path, "
                    "growth policy a parameter): for all histories of valid operations from every constructor the model never faults "
                    "(no access outside an allocation, no uninitialised read, no double free, no leak once the destructors ran), "
-                   "capacity >= size, and contents and returned iterator offsets are those of the List specification of std::vector, "
-                   "including aliased arguments; a buffer hands exactly its read area to the raw_vector it is converted into. "
+                   "capacity >= size, contents, returned iterator offsets and returned references (operator[], front, back, stores through "
+                   "them) are those of the List specification of std::vector, including aliased arguments, self-swap, self-move-assignment "
+                   "and own sub-ranges in front of the insertion point; storage is kept iff the new size fits the old capacity, the "
+                   "capacity never shrinks except by shrink_to_fit (== size), reserve(n) gives >= n, growth at least doubles; the six "
+                   "comparison operators are list equality / lexicographic order; a buffer hands exactly its read area to the raw_vector "
+                   "it is converted into; read_chars equals the stream specification. "
                    "The model is tied to the code by a three-way differential correspondence (real templates vs std::vector vs model) "
-                   "over systematic single-operation cases and random histories up to length 60 under ASan/UBSan/LSan with a ledger allocator."),
+                   "over systematic single-operation, two-step, comparison and buffer-program batches and random histories up to length 60 "
+                   "under ASan/UBSan/LSan with a ledger allocator, plus an inventory of the public API against the operations of the harness."),
     "level_note": ("Trusted: Lean kernel + propext/Classical.choice/Quot.sound; fidelity of the hand-written model outside the "
                    "exercised inputs; harness, ledger allocator and line protocol; the standard algorithms' copy order. "
                    "No sorry/axiom/native_decide."),
